@@ -427,7 +427,11 @@ def compile_ast(
         else:
             assert nd.how != "full"
             if nd.how == "left":
-                df = df.with_columns(__INDEX__=pl.int_range(0, pl.len(), dtype=pl.Int64))
+                # The indexed frame is used twice below (in `join_where` and for joining the matches
+                # back). Without `cache`, polars may evaluate it twice; if its row order is not
+                # deterministic (e.g. after `group_by`), the two evaluations number the rows
+                # differently and the matches get attached to the wrong left rows.
+                df = df.with_columns(__INDEX__=pl.int_range(0, pl.len(), dtype=pl.Int64)).cache()
 
             joined = df.join_where(
                 right_df,
